@@ -22,7 +22,7 @@ RULE = (
     "alive at the same time on shared objects, or a cancel/abandon followed by re-use"
 )
 STATE_MEASURE = "(propagator kind, call kind, direction x start-vs-epoch class, #live iterations, listeners yes/no)"
-PROBES = ["listener_reused_sequentially", "interleaved_shared_listener_interference", "value_within_tolerance", "expected_exception_raised", "event_items", "two_live_tasks_same_object", "reuse_after_cancel", "shared_propagator_interleaved", "keplernum_retropolation", "numerical_orbit_with_maneuvers", "date_range_object_shared", "ephemeris_order_changed_after_use"]
+PROBES = ["listener_reused_sequentially", "interleaved_shared_listener_interference", "value_within_tolerance", "expected_exception_raised", "event_items", "two_live_tasks_same_object", "reuse_after_cancel", "shared_propagator_interleaved", "keplernum_retropolation", "numerical_orbit_with_maneuvers", "date_range_object_shared", "ephemeris_order_changed_after_use", "yielded_points_used_as_new_orbits"]
 REAL_VS_STUB = "real: every propagator, Orbit/Ephem iteration code, Date, frames, listeners, sgp4 library; stub: wall clock (virtual), EOP storage (simulated disk; zeros by policy 'pass' in most runs, real IERS tables in some); oracle: pristine second node executing one direct propagation per yielded state + an exact integer-millisecond date-range model"
 ASSUMPTIONS = ["the fresh-node differential cannot see an error that is identical with and without history (numerical correctness is C05-C07, not applicable here)", "KeplerNum values are compared within 5 mm / 5 um/s (Lagrange re-sampling), on a sample of the yielded items"]
 SAMPLED_ONLY = []
